@@ -126,8 +126,12 @@ def _ask(w, q):
             if k == "sip":
                 crpix = None if q.get("crpix") is None else np.array(q["crpix"], dtype=float)
                 keep = None if crpix is None else crpix.copy()
-                h = w.to_fits_sip(degree=q.get("degree", 3), max_pix_error=100, max_inv_pix_error=100, npoints=8, crpix=crpix)
+                deg = q.get("degree", 3)
+                deg_keep = list(deg) if isinstance(deg, list) else deg
+                h = w.to_fits_sip(degree=deg, max_pix_error=100, max_inv_pix_error=100, npoints=8, crpix=crpix)
                 if crpix is not None and not np.array_equal(crpix, keep):
+                    return {"err": "args_mutated"}
+                if deg != deg_keep:
                     return {"err": "args_mutated"}
                 return {"v": [[c.keyword, _canon(c.value)] for c in h.cards], "iter": True}
             if k == "tab":
@@ -506,6 +510,8 @@ def gen(rng, tier):
                 elif q == "sip":
                     if rng.random() < 0.6:
                         ev["crpix"] = [cur1["crpix"][0] + 1.0, cur1["crpix"][1] + 1.0]
+                    if rng.random() < 0.5:
+                        ev["degree"] = rng.choice([[3, 1, 2], [2, 1], [1, 3]])      # a caller's list, not in ascending order
                 elif q == "tab":
                     ev["bbox"] = [[0.0, 300.0], [0.0, 200.0]]
                 elif q == "get":
